@@ -1,6 +1,6 @@
 (* Extraction of M-DEV. ExtrOcamlBasic only; nat, positive, N stay inductive. *)
 Require Extraction.
 Require Import ExtrOcamlBasic.
-From Atlas Require Import Base.Bytes Dev.DevSession.
+From Atlas Require Import Base.Bytes Dev.DevSession Dev.DevTxModel.
 Extraction Language OCaml.
-Extraction "model.ml" observe run_cmd.
+Extraction "model.ml" observe run_cmd tx_observe.
